@@ -33,6 +33,7 @@ pub enum Trace {
     Channel(crate::channel::ChannelTrace),
     Recorder(crate::recorder::RecorderTrace),
     Rules(crate::rules::RulesTrace),
+    Bytes(crate::crash::BytesTrace),
 }
 
 #[derive(Clone, Debug, Serialize, Deserialize)]
@@ -216,6 +217,9 @@ pub fn exec_supply(check: &str, t: &SupplyTrace, scratch: &Scratch, rec: &mut Ru
             "verdicts": o.verdicts.iter().map(|v| v.short()).collect::<Vec<_>>(),
             "necessary_conditions_failed": j.root_eval.as_ref().map(|e| e.fails.iter().map(|f| format!("{}:{}", f.prop, f.clause)).collect::<Vec<_>>()),
         }));
+    }
+    if std::env::var("SCSIM_DEBUG").is_ok() {
+        eprintln!("DEBUG {:?} -> {:?} events {:?} work {:?}", t.labels, o.verdicts.iter().map(|v| v.short()).collect::<Vec<_>>(), o.events, o.work_after);
     }
     let mut own = vec![];
     for f in j.findings {
@@ -423,5 +427,6 @@ pub fn replay_trace(prop: &str, trace: &Trace, scratch: &Scratch) -> Vec<Finding
         Trace::Channel(t) => crate::channel::replay(prop, t, scratch, &mut rec),
         Trace::Recorder(t) => crate::recorder::replay(prop, t, scratch, &mut rec),
         Trace::Rules(t) => crate::rules::replay(prop, t, scratch, &mut rec),
+        Trace::Bytes(t) => crate::crash::replay(prop, t, &mut rec),
     }
 }
